@@ -53,13 +53,15 @@ pub struct HistStats {
     pub cases: u64,
     pub redundant: u64,
     pub violating: u64,
+    /// histories cut short only by violations that another property's check owns
+    pub foreign: u64,
 }
 
 pub fn explore(report: &mut Report, plan: &HistPlan) -> HistStats {
     // history workers contend on kernel memory management (Tantivy writers); 8 is the sweet spot
     let cfg = PoolCfg { kind: plan.worker_kind.into(), timeout: Duration::from_secs(120), workers: ncpu().min(8), envs: vec![] };
     let mut frontier: Vec<Vec<String>> = vec![vec![]];
-    let mut stats = HistStats { cases: 0, redundant: 0, violating: 0 };
+    let mut stats = HistStats { cases: 0, redundant: 0, violating: 0, foreign: 0 };
     let mut digests: HashSet<String> = HashSet::new();
     for depth in 1..=plan.max_depth {
         let mut cases = Vec::new();
@@ -110,6 +112,15 @@ pub fn explore(report: &mut Report, plan: &HistPlan) -> HistStats {
                     } else {
                         stats.violating += 1;
                         let mut seen_sigs = HashSet::new();
+                        let mut owned = 0;
+                        for vi in &viols {
+                            if plan.keep.map_or(true, |k| k(&signature_of(vi))) {
+                                owned += 1;
+                            }
+                        }
+                        if owned == 0 {
+                            stats.foreign += 1;
+                        }
                         for vi in &viols {
                             let sig = signature_of(vi);
                             if let Some(keep) = plan.keep {
@@ -147,6 +158,13 @@ pub fn explore(report: &mut Report, plan: &HistPlan) -> HistStats {
         frontier = next;
         let _ = depth;
     }
+    // vacuity guard: a plan whose histories mostly end in another property's violation explores nothing
+    let live = stats.cases - stats.redundant;
+    if live > 0 && stats.foreign * 2 > live {
+        die(&format!("plan '{}': {} of {} histories were cut short by violations owned by other properties; the exploration would be vacuous", plan.label, stats.foreign, live));
+    }
+    let prev_f = report.extra.get("histories_cut_by_other_properties").and_then(|v| v.as_u64()).unwrap_or(0);
+    report.set("histories_cut_by_other_properties", json!(prev_f + stats.foreign));
     let prev = report.extra.get("distinct_final_states").and_then(|v| v.as_u64()).unwrap_or(0);
     report.set("distinct_final_states", json!(prev + digests.len() as u64));
     stats
